@@ -4,6 +4,7 @@ import (
 	"bytes"
 	"fmt"
 	"math/big"
+	"sort"
 
 	sdk "github.com/cosmos/cosmos-sdk/types"
 	"github.com/cosmos/cosmos-sdk/types/query"
@@ -432,8 +433,34 @@ func (m *monC16) checkListing(vs *[]Violation, name, req string, want [][]byte, 
 				bad("query/"+name+"/pagination-by-offset", "%s(%s): offset 1 limit 1 returns an object that does not satisfy the request", name, req)
 			}
 		}
+		// Reverse walk: the same stored objects (compared as a multiset; the order is the SDK's).
+		_, rev, _, _, err := call(&query.PageRequest{Reverse: true})
+		if err != nil {
+			bad("query/"+name+"/reverse-error", "%s(%s) reverse: %v", name, req, err)
+		} else if !sameMultiset(rev, want) {
+			bad("query/"+name+"/reverse-wrong-elements", "%s(%s) with reverse=true returns %d objects, the stored objects satisfying the request are %d (or differ)", name, req, len(rev), len(want))
+		}
 		m.st.Inc("paginated_listings")
 	}
+}
+
+func sameMultiset(a, b [][]byte) bool {
+	if len(a) != len(b) {
+		return false
+	}
+	x := make([]string, len(a))
+	y := make([]string, len(b))
+	for i := range a {
+		x[i], y[i] = string(a[i]), string(b[i])
+	}
+	sort.Strings(x)
+	sort.Strings(y)
+	for i := range x {
+		if x[i] != y[i] {
+			return false
+		}
+	}
+	return true
 }
 
 // anyValue strips the Any envelope of a stored auction (type URL + value) and returns the value bytes.
